@@ -66,12 +66,12 @@ for d in sorted(glob.glob(f'{SRC}/*/m*')):
     json.dump(full, open(f'{out}/meta.json', 'w'), indent=1)
     catchers = [f"{c} ({v['signatures'][0]})" if v.get('signatures') else c for c, v in caught.items() if isinstance(v, dict) and v.get('exit') == 1]
     missed = [c for c, v in caught.items() if isinstance(v, dict) and v.get('exit') == 0]
-    rows.append((prop, tag, 'yes' if ok else 'see meta', '; '.join(catchers) or '-', ', '.join(missed) or '-', (meta.get('summary', '') or '')[:110].replace('|', '/')))
+    rows.append((prop, tag, 'yes' if ok else 'see meta', '; '.join(catchers) or '-', ', '.join(missed) or '-', (meta.get('summary', '') or '')[:110].replace('|', '/'), notes.replace('|', '/').replace('\n', ' ')))
 
 with open(f'{DST}/RESULTS.md', 'w') as f:
     f.write('# Seeded changes: which check catches which\n\n')
     f.write('Each change compiles, passes the 275 existing tests and comes with a demonstration test that fails with it and passes without it (column "confirmed": re-run by tools/confirm_mutant.sh in a scratch worktree at the /repo HEAD of that time; details in each meta.json). "caught by" = quick-tier checks that exit 1 with the change applied to /repo (tools/try_mutant.sh), with the first signature reported.\n\n')
-    f.write('| property | change | confirmed | caught by (quick tier) | checks run that stayed silent | what it is |\n|---|---|---|---|---|---|\n')
+    f.write('| property | change | confirmed | caught by (quick tier) | checks run that stayed silent | what it is | note |\n|---|---|---|---|---|---|---|\n')
     for r in rows:
         f.write('| ' + ' | '.join(r) + ' |\n')
 print(len(rows), 'changes assembled')
